@@ -258,29 +258,43 @@ def check(ctx, rep):
                 continue
             n_srv += 1
             problems = []
-            fins = [c for c, t in eff.calls_of(m, S) if isinstance(c.func, ast.Attribute) and c.func.attr == "finish_request"]
-            if not fins:
-                problems.append("finish_request is never called")
-            for c in fins:
-                tries = enclosing_tries(m.node, c)
-                if not any(catches(h, "Exception") for tr in tries for h in tr.handlers):
-                    problems.append("an exception from the request handler propagates to the accept loop / kills the worker unlogged")
-                else:
-                    ok = False
-                    for tr in tries:
-                        for h in tr.handlers:
-                            if catches(h, "Exception") and any(isinstance(x, ast.Call) and isinstance(x.func, ast.Attribute) and x.func.attr == "handle_error" for x in ast.walk(h)) \
-                                    and not any(isinstance(x, ast.Raise) for x in ast.walk(h)):
-                                ok = True
-                    if not ok:
+
+            def rp_fin(call, target):
+                if isinstance(call.func, ast.Attribute) and call.func.attr == "finish_request":
+                    return ["RuntimeError"]
+                if isinstance(call.func, ast.Attribute) and call.func.attr == "handle_error":
+                    return ["ErrorWhileReporting"]  # reporting can fail too (a closed log): the connection is still shut down
+                return []
+
+            # the worker with the helpers of the server module it is built from
+            NOIN = ("wrap_socket", "finish_request", "handle_error", "shutdown_request", "close_request", "server_bind", "__init__")
+            w_ = Walker(prog, ctx.resolver, raise_points=rp_fin,
+                        inline=lambda fn, t, d: d < 3 and t.bound_cls is not None and fn.module is m.module and fn.name not in NOIN)
+            n_fin = 0
+            try:
+                wpaths = w_.run(m, S)
+            except Exception:
+                wpaths = []
+                problems.append("could not enumerate the worker's paths")
+            for p in wpaths:
+                idx = [i for i, e in enumerate(p.events) if e.kind == "call" and isinstance(e.node.func, ast.Attribute) and e.node.func.attr == "finish_request"]
+                if not idx:
+                    continue
+                n_fin += 1
+                after = p.events[idx[0]:]
+                failed = any(e.kind == "raise" and e.extra == "implicit" and isinstance(e.node, ast.Call) and isinstance(e.node.func, ast.Attribute)
+                             and e.node.func.attr == "finish_request" for e in after)
+                report_failed = any(e.kind == "raise" and e.extra == "implicit" and isinstance(e.node, ast.Call) and isinstance(e.node.func, ast.Attribute)
+                                    and e.node.func.attr == "handle_error" for e in after)
+                if failed and not report_failed:
+                    if p.kind == "raise":
+                        problems.append("an exception from the request handler propagates to the accept loop / kills the worker unlogged")
+                    elif not any(e.kind == "call" and isinstance(e.node.func, ast.Attribute) and e.node.func.attr == "handle_error" for e in after):
                         problems.append("the worker's exception handler does not report through handle_error (or re-raises)")
-                shut = False
-                for tr in tries:
-                    if any(isinstance(x, ast.Call) and isinstance(x.func, ast.Attribute) and x.func.attr == "shutdown_request"
-                           for fb in tr.finalbody for x in ast.walk(fb)):
-                        shut = True
-                if not shut:
-                    problems.append("the connection is not shut down in a finally (descriptor leak when the handler fails)")
+                if not any(e.kind == "call" and isinstance(e.node.func, ast.Attribute) and e.node.func.attr == "shutdown_request" for e in after):
+                    problems.append("the connection is not shut down on every path after the handler ran (descriptor leak when the handler fails)")
+            if n_fin == 0 and not problems:
+                problems.append("finish_request is never called")
             rep.add("R20a", f"{m.qualname} wraps finish_request", not problems, ctx.where(m), "; ".join(sorted(set(problems))),
                     key=f"R20a|{m.qualname}|" + ";".join(sorted(set(problems))))
     if n_srv == 0:
